@@ -239,6 +239,63 @@ func (w *world) oneHonest(k kase, r *engine.Report) (string, string) {
 	return "", ""
 }
 
+// oneConfigs: with both chains valid the node must build one client
+// configuration per chain, each naming its own chain as certificate
+// preference and offering the same request and extra protocols.
+func (w *world) oneConfigs(withState bool, nExtras int, r *engine.Report) (string, string) {
+	vclock.Freeze(dialTime)
+	var o []nodeenrollment.Option
+	if withState {
+		o = append(o, nodeenrollment.WithState(harness.Struct(map[string]any{"s": 1.0})))
+	}
+	var extras []string
+	for i := 0; i < nExtras; i++ {
+		extras = append(extras, fmt.Sprintf("extra-%d", i))
+	}
+	if extras != nil {
+		o = append(o, nodeenrollment.WithExtraAlpnProtos(extras))
+	}
+	confs, err := nodetls.ClientConfigs(harness.Ctx, w.n1.Creds, o...)
+	desc := fmt.Sprintf("ClientConfigs(client state=%v, %d extra protocols)", withState, nExtras)
+	if err != nil {
+		return "client-configs-error", desc + ": " + err.Error()
+	}
+	want := map[string]bool{}
+	for _, b := range w.n1.Creds.CertificateBundles {
+		want[harness.CaKeyId(b.CaCertificateDer)] = true
+	}
+	got := map[string]bool{}
+	for i, cf := range confs {
+		var prefs, rest []string
+		for _, p := range cf.NextProtos {
+			switch {
+			case strings.HasPrefix(p, nodeenrollment.CertificatePreferenceV1Prefix):
+				prefs = append(prefs, strings.TrimPrefix(p, nodeenrollment.CertificatePreferenceV1Prefix))
+			case strings.HasPrefix(p, nodeenrollment.AuthenticateNodeNextProtoV1Prefix):
+			default:
+				rest = append(rest, p)
+			}
+		}
+		if len(prefs) != 1 {
+			return "client-configs:preference-count", fmt.Sprintf("%s: configuration %d carries %d certificate preferences", desc, i, len(prefs))
+		}
+		got[prefs[0]] = true
+		if strings.Join(rest, ",") != strings.Join(extras, ",") {
+			return "client-configs:extras", fmt.Sprintf("%s: configuration %d offers %v instead of the extra protocols %v", desc, i, rest, extras)
+		}
+	}
+	if len(confs) != len(want) || len(got) != len(want) {
+		return "client-configs:not-one-per-chain", fmt.Sprintf("%s: %d configurations naming %d distinct chains, but the node holds %d valid chains - a server that still recognizes only the other chain becomes unreachable", desc, len(confs), len(got), len(want))
+	}
+	for k := range got {
+		if !want[k] {
+			return "client-configs:unknown-preference", desc + ": a configuration names a chain the node does not hold"
+		}
+	}
+	r.Branch("client-configs:one-per-chain")
+	return "", ""
+}
+
 // ---- histories
 
 const life = 8 * time.Hour
@@ -416,7 +473,7 @@ func (w *world) runHistories(c *engine.Ctx, r *engine.Report) {
 }
 
 func run(c *engine.Ctx, r *engine.Report) {
-	r.Need("rogue:rejected", "rogue:accepted-trusted-root", "honest:connected", "honest:unix", "history:not-authorized", "history:fetched-and-connected", "history:connected")
+	r.Need("rogue:rejected", "rogue:accepted-trusted-root", "honest:connected", "honest:unix", "client-configs:one-per-chain", "history:not-authorized", "history:fetched-and-connected", "history:connected")
 	w := newWorld(c.Seed)
 	i := 0
 	for _, kind := range rogueKinds {
@@ -445,6 +502,20 @@ func run(c *engine.Ctx, r *engine.Report) {
 		}
 		r.Nontrivial(1)
 	}
+	for _, st := range []bool{false, true} {
+		for n := 0; n <= 6; n++ {
+			i++
+			if !c.Mine(i) {
+				continue
+			}
+			r.Eval(1)
+			if sig, msg := w.oneConfigs(st, n, r); sig != "" {
+				r.Violate(sig, msg, kase{Part: "configs", State: st, Path: []string{fmt.Sprint(n)}, Seed: c.Seed})
+				continue
+			}
+			r.Nontrivial(1)
+		}
+	}
 	if c.Shard == c.Shards-1 {
 		w.runHistories(c, r)
 		r.Nontrivial(r.States)
@@ -465,6 +536,10 @@ func replay(c *engine.Ctx, raw json.RawMessage) (string, bool) {
 		sig, msg = w.oneRogue(k.Kind, r)
 	case "honest":
 		sig, msg = w.oneHonest(k, r)
+	case "configs":
+		var n int
+		fmt.Sscan(k.Path[0], &n)
+		sig, msg = w.oneConfigs(k.State, n, r)
 	default:
 		h := w.initialHist()
 		for _, l := range k.Path {
@@ -486,7 +561,7 @@ func init() {
 	engine.Register(&engine.CheckDef{
 		ID:    "C07",
 		Level: "exploration",
-		Rule: "real protocol.Dial of a registered node against 9 hand-built server constructions (foreign roots; stale certificate minted for another nonce; minted without nonce; another node's client certificate; self-signed with the right nonce; chained to a trusted root with a wrong EKU / an expired leaf; right chain but certificate preference ignored / honoured), 16 honest configurations (storage wrapper x extra ALPN x client state x tcp/unix) against the real listener, and a BFS (quick depth 7, thorough 10) over {authorize, dial, advance 1/4 lifetime, rotate roots} in virtual time for a node that starts unregistered; " +
+		Rule: "real protocol.Dial of a registered node against 9 hand-built server constructions (foreign roots; stale certificate minted for another nonce; minted without nonce; another node's client certificate; self-signed with the right nonce; chained to a trusted root with a wrong EKU / an expired leaf; right chain but certificate preference ignored / honoured), 16 honest configurations (storage wrapper x extra ALPN x client state x tcp/unix) against the real listener, the client configurations built for client state x 0..6 extra protocols (one per valid chain, each naming its own chain), and a BFS (quick depth 7, thorough 10) over {authorize, dial, advance 1/4 lifetime, rotate roots} in virtual time for a node that starts unregistered; " +
 			"distinct_nontrivial = rogue kinds + honest configurations judged + canonical history states",
 		Assumptions: []string{"the two constructions that need a trusted root's private key are built with the server's own key (a real rogue could not)", "in histories a dial must succeed whenever the node holds a chain strictly inside its validity under a root the server still holds and that is valid; ties are not judged"},
 		Shards:      func(c *engine.Ctx) int { return 4 },
